@@ -9,6 +9,7 @@ from zope.interface import (
     directlyProvides, implementedBy, noLongerProvides, providedBy,
 )
 from zope.interface.adapter import AdapterRegistry, VerifyingAdapterRegistry
+from zope.interface.interface import InterfaceClass
 
 from zmon import util
 from zmon.util import nm
@@ -1234,6 +1235,17 @@ def run_c05(ctx, rng, job):
     steer = []        # (registry index, number of further changes wanted) after a rebuild()
 
     def mutate():
+        if rng.random() < 0.08:
+            # a short-lived specification is looked up with (the registries subscribe to it) and dies before the next
+            # change: the invalidation that follows finds a dead reference among the watched specifications
+            tmp = InterfaceClass('ITmp%d' % len(log), (rng.choice(w.R),), {}, __module__=w.R[0].__module__)
+            for r_ in w.regs:
+                r_.lookup([tmp], rng.choice(w.P), '')
+                r_.subscriptions([tmp], rng.choice(w.P))
+                r_.lookupAll([tmp], rng.choice(w.P))
+            del tmp
+            gc.collect()
+            ctx.count('watched_specifications_that_died')
         k = rng.choice(MUTATION_KINDS + ['register', 'subscribe', 'rebuild'])
         ri = rng.randrange(len(w.regs))
         if steer:
